@@ -1,5 +1,5 @@
 """C18 - Jitter buffer emits pushed packets in sequence order, at most once.
-(M) MC_JitterBuffer  (G) Gen_JitterBuffer scripts -> real PriorityQueue / JitterBuffer / ReceiverInterceptor
+(M) MC_JitterBuffer, MC_JitterList (refinement)  (G) Gen_JitterBuffer scripts -> real PriorityQueue / JitterBuffer / ReceiverInterceptor
 (T) Trace_JitterBuffer."""
 import json
 import random
@@ -15,7 +15,9 @@ META = {
             "over a wrap-around / state-relative alphabet at the real 2^16 modulus; these and seeded random long histories are "
             "executed on the real PriorityQueue, JitterBuffer and ReceiverInterceptor with pointer-tracked packet identities "
             "and every recorded step (returned object or error class, playout head, length, reachable nodes, events) "
-            "must be a step of the specification.",
+            "must be a step of the specification. JitterList.tla (the sorted doubly linked list with cached length, transcribed "
+            "from priority_queue.go) is checked by TLC to refine the property-level queue, with the three repaired defects as "
+            "refuted negative controls.",
     "note": "Trusted: the reading of the property in JitterBuffer.tla (behaviour the property is silent about - list order, "
             "PopAtSequence head+1, Clear(true) keeping the head and restoring minStart 50, events - follows the code); "
             "single caller (locking is C10); < 65536 packets buffered; interceptor level uses caller buffers of exactly the "
@@ -176,6 +178,18 @@ def run(ctx):
                      timeout=3000, note="history clauses: VeryObject AtMostOnce Consecutive StartsAtFirst ClearedGone + action properties")
     vlib.model_check(ctx, "MC_JitterBuffer.tla", vlib.cfg_variant(ctx, "MC_JitterBuffer_ops.cfg", {"MaxSteps": 4 if q else 5}),
                      timeout=3000, note="per-state result clauses over all arguments (history hidden by VIEW)")
+    # (M) implementation-shaped layer: the linked list of priority_queue.go (JitterList.tla) refines the property-level
+    # PriorityQueue machine; the three repaired behaviours are switched back on one at a time as negative controls
+    for consts in ([{"M": 4, "MaxSteps": 6}] if q else [{"M": 4, "MaxSteps": 8}, {"M": 6, "MaxSteps": 7}]):
+        vlib.model_check(ctx, "MC_JitterList.tla", vlib.cfg_variant(ctx, "MC_JitterList.cfg", consts), workers=4, timeout=3000,
+                         note="refinement: contents in order, reach = length, acyclic, prev pointers, nothing outside reachable, results")
+    for cfg, inv, what in [
+            ("MC_JitterList_neg_clear.cfg", "LengthIsReach", "Clear leaves the list attached"),
+            ("MC_JitterList_neg_insert.cfg", "IsAcyclic", "strict < in the head-insert test of Push"),
+            ("MC_JitterList_neg_prev.cfg", "PrevPointers", "head pop does not clear the new head's prev"),
+            ("MC_JitterList_neg_prev_e.cfg", "NothingOutside", "head pop does not clear prev (only clause (e) checked)")]:
+        vlib.model_check(ctx, "MC_JitterList.tla", cfg, workers=1, expect_violation="Invariant %s is violated" % inv,
+                         note="negative control: " + what)
     # (G) systematic: every behaviour of the plan set (see Gen_JitterBuffer.tla) + TLC random walks
     if q:
         scripts = gen(ctx, rng, "Gen_JitterBuffer.cfg")
@@ -206,8 +220,8 @@ def run(ctx):
         "uint16 order for PriorityQueue.Pop/PopAtTimestamp, PopAtSequence advances the head by one, SetPlayoutHead, Clear(true) "
         "keeps the playout head and restores minStartCount 50, listener events) is modelled as the code does it",
         "sequential use (one caller); fewer than 65536 packets buffered (Length is a uint16)",
-        "packet identity = Go pointer identity tracked by the harness, repeated in the payload; list reachability is read from "
-        "the unexported next pointers",
+        "packet identity = Go pointer identity tracked by the harness, repeated in the payload; list reachability and prev-pointer "
+        "consistency are read from the unexported next/prev pointers",
         "interceptor level: default minimum start 50, caller buffers of exactly the packet size (the C02 suspect about parsing the "
         "whole scratch buffer is outside this property), all packets of a script have one size",
         "Go toolchain go1.24.0 from the module cache, pion/rtp Marshal/Unmarshal trusted",
